@@ -1210,6 +1210,15 @@ func (w *scanWalker) equal(a, b sval, p *spath) []sbranch {
 		return []sbranch{{p, true}, {q, false}}
 	case a.kind == svSym && b.kind == svSym && a.sym == b.sym:
 		return []sbranch{{p, true}}
+	case a.kind == svSym && b.kind == svSym:
+		// two characters read: when one of them is known on this path (`r2 == r` after r was
+		// looked up in a table), the comparison decides the other
+		if p.syms[a.sym].eq == nil && p.syms[b.sym].eq != nil {
+			a, b = b, a
+		}
+		if k := p.syms[a.sym].eq; k != nil {
+			return w.equal(b, sval{kind: svConst, c: constant.MakeInt64(int64(*k))}, p)
+		}
 	}
 	return []sbranch{{p, true}, {p.clone(), false}}
 }
